@@ -63,6 +63,17 @@ add("C19",
     "reading is refuted in Props/C19.v and not alarmed on.",
     "Coq proof over Q/Z (lists, rounding, interpolation) + vm_compute correspondence", "DESIGN.md §5 C19")
 
+add("C03",
+    "(F) for finite bounds the set of captures reproducible by in-bound intensities equals the convex hull of the images of the 2^n box corners (both directions, all sizes); "
+    "offset subtraction does not change membership; chromatic (L1-normalised) membership equals membership in the cone over the points. (C) certificate theorems: a checked "
+    "in-bound x within tol => target reproducible within tol; a checked hyperplane => NO in-bound intensity reproduces the target (for all x), also in the cone form. Every "
+    "answer of ReceptorEstimator.in_hull on seeded systems/targets is judged by these checkers in the Coq VM: interior images must be accepted (every configuration), "
+    "targets outside by margin must be rejected (finite bounds, full-dimensional gamut), accepted targets must be reproducible within 1e-6.",
+    TRUST + "qhull point location and the cvxpy NNLS fallback are opaque. Certificates from scipy/HiGHS LPs (untrusted). Instances and margins come from a seeded "
+    "generator. Known findings D6/D12 (NNLS fallback rejects interior images for unbounded / flat gamuts) are reported as KNOWN-FINDING; rejections are not asserted in "
+    "those configurations (as the property says).",
+    "Coq proof (zonotope = hull of corner images, by induction on sources) + certificate checkers proved sound and run by vm_compute on real answers", "DESIGN.md §5 C03")
+
 NOT_APPLICABLE = []
 ALL = ["C%02d" % i for i in range(1, 21)]
 
